@@ -76,7 +76,7 @@ func TestCheck(t *testing.T) {
 	r := vf.Start(t, "C37", vf.Exploration)
 	defer r.Finish()
 	r.SetExhaustive(true)
-	r.SetRule("bounded-exhaustive: for each of 11 directive types (SolicitProtocol, EstablishLinkWithPeer, HandleMountedStream, DialTptAddr, LookupTptAddr, LookupTransport, LookupRpcService, LookupRpcClient, LookupHTTPHandler, SignalPeer, GetPeer) all instances over a 3-value universe per parameter (peers {\"\",A,B}, protocol ids, context bytes {nil,c1,c2}, transport ids {0,1,2}, addresses, ids {\"\",s1,s2}, methods {\"\",GET,POST}, URLs) and ALL ordered pairs of instances, plus all ordered cross-type pairs of one representative per type. Oracle: the harness' own parameter tuples; tuples differing in >=1 resolution-affecting parameter => IsEquivalent must be false and a real controllerbus directive controller must return distinct instances for the two AddDirective calls. Equal tuples => true is informational only. DialTptAddr back-off options are enumerated but not resolution-affecting (DESIGN 8). Non-trivial = pair with different tuples (the direction the property constrains); distinct = (type, x, y).")
+	r.SetRule("bounded-exhaustive: for each of 11 directive types (SolicitProtocol, EstablishLinkWithPeer, HandleMountedStream, DialTptAddr, LookupTptAddr, LookupTransport, LookupRpcService, LookupRpcClient, LookupHTTPHandler, SignalPeer, GetPeer) all instances over a 3-value universe per parameter (peers {\"\",A,B}, protocol ids, context bytes {nil,c1,c2}, transport ids {0,1,2}, addresses, ids {\"\",s1,s2}, methods {\"\",GET,POST}, URLs) and ALL ordered pairs of instances, plus all ordered cross-type pairs of one representative per type. Oracle: the harness' own parameter tuples; tuples differing in >=1 resolution-affecting parameter => IsEquivalent must be false and a real controllerbus directive controller must return distinct instances for the two AddDirective calls. Equal tuples => true is informational only. DialTptAddr back-off options are enumerated but not resolution-affecting (DESIGN 8). Near-equal part (beyond the 3-value universe): for every string / bytes / peer-id / address / URL parameter of every type a family of 20-45 near-equal but different values around a base value (letter case of all / the first / the last letter, ASCII and Unicode; leading / trailing space, tab, newline, NUL, slash, dot; doubled / removed separator; Cyrillic and full-width look-alikes, NFC vs NFD, zero-width space; prefix, extension, last bit, first two bytes swapped, doubled; for peer ids additionally an id whose base58 TEXT differs in letter case only, the text used as raw id, printable ids; for transport addresses case / spacing / doubling around the '|' and in host, port, path; for URLs path / query order / fragment / port / userinfo variants that the standard library renders differently) - ALL ordered pairs of each family with the other parameters equal (base values, or PRNG-chosen near-equal values common to both sides); for every two parameters of a type swapped-role pairs (p=u,q=v vs p=v,q=u) and boundary-shifted pairs (p=u+s,q=v vs p=u,q=s+v; p=u+s+v,q=\"\" vs p=u,q=v) over 8 separators; for the numeric transport constraints 15 values that coincide under 8/16/32-bit truncation or sign change. IsEquivalent must be false for every such pair; the real directive controller is tried on every third pair. Non-trivial = pair with different tuples (the direction the property constrains); distinct = (type, x, y).")
 	r.Assume("a parameter is resolution-affecting when a resolver in the repository reads it (solicit controller reads SolicitProtocolTransportID/PeerID/Context; transport controller reads DialTptAddr address, peers; ...) or it is a getter of the directive interface used as request identity; DialerOpts.Backoff is not")
 
 	pool := keys.Pool(r.Rand("c37-peers"), 2)
@@ -317,4 +317,7 @@ func TestCheck(t *testing.T) {
 		}
 	}
 	r.Extra("directive_types", len(types))
+
+	// near-equal parameter values (near_test.go)
+	nearPhase(r, pool[0].ID, pool[1].ID, isEq, busMerged)
 }
